@@ -30,16 +30,29 @@ def reaches(case: Any) -> Dict[int, set]:
 
 def claimed_reexports(case: Any) -> List[Dict[str, Any]]:
     """The re-exports the property speaks about: one re-exporter for the object, and the defining module does not
-    (transitively) import the re-exporter (otherwise the object may not exist yet when the re-exporter is analysed --
-    such a program does not import in Python either)."""
+    (transitively) import the re-exporter BEFORE it defines the object (otherwise the object may not exist yet when the
+    re-exporter is analysed -- such a program does not import in Python either). An import of the own package placed
+    after the definitions is fine."""
     rx = P.reexports(case)
     keys = [(r['D'], r['x']) for r in rx]
     reach = reaches(case)
+    fn = P.fullnames(case)
+    idx = {nm: i for i, nm in enumerate(fn)}
     out = []
     for r in rx:
         if keys.count((r['D'], r['x'])) != 1 or r['R'] == r['D']:
             continue
-        if r['R'] in reach[r['D']]:
+        early: set = set()
+        for st in case['mods'][r['D']]['stmts']:
+            if st[0] in ('class', 'def', 'var') and st[1] == r['x']:
+                break
+            if st[0] in ('from', 'star'):
+                t = P.abs_modname(case, fn, r['D'], st[1], st[2])
+                if t in idx:
+                    early.add(idx[t])
+                    if st[0] == 'from' and case['mods'][idx[t]]['pkg']:
+                        early.update(idx[t + '.' + o] for o, a in st[3] if t + '.' + o in idx)
+        if any(e == r['R'] or r['R'] in reach[e] for e in early):
             continue
         # a re-exporter that binds the exported name more than once, or a defining module that binds x more than once,
         # is outside "each object has at most one re-exporter"
@@ -233,10 +246,10 @@ class Check(c06.Check):
 
     def gen_cases(self, thorough: bool) -> List[Any]:
         out: List[Any] = []
-        out.extend(P.reexport_matrix())
         for label, c in P.corpus():
             c = dict(c); c['label'] = label
             out.append(c)
+        out.extend(P.reexport_matrix())
         self.exhaustive = True
         self.stats['exhaustive_bound'] = 're-export matrix 2 x 3 x 6 (36 projects), every reachable schedule'
         nrand = 2500 if thorough else 130
